@@ -574,11 +574,7 @@ pub fn run_a(ctx: &Ctx) -> Outcome {
 pub fn run(ctx: &Ctx) -> Outcome {
     match ctx.part.as_deref() {
         None | Some("a") => run_a(ctx),
-        Some("b") => {
-            let mut o = Outcome::new();
-            o.inconclusive("C18 part b (end-to-end through a Session and a mock node) is not built yet");
-            o
-        }
+        Some("b") => crate::checks::session_e2e::run_c18_b(ctx),
         Some(p) => {
             let mut o = Outcome::new();
             o.inconclusive(format!("C18 has no part {p:?}"));
